@@ -101,6 +101,10 @@ pub enum Edit {
     G2 { slot: u16, kind: u8 },
     /// compressed circuits: apply the edits to the inflated payload
     Inner(Vec<Edit>),
+    /// MessagePack-aware (inflated payload of a compressed circuit): re-encode
+    /// the `which`-th integer / array-length token with another value, keeping
+    /// everything else well-formed
+    MsgInt { which: u16, val: u8, lengths: bool },
 }
 
 #[derive(Debug, Clone, Serialize, Deserialize)]
@@ -447,6 +451,24 @@ pub fn apply_edits(target: u8, mut b: Vec<u8>, edits: &[Edit]) -> Vec<u8> {
                     put(&mut b, off, &crafted_g2(*kind));
                 }
             }
+            Edit::MsgInt { .. } if target == T_COMPRESSED => {
+                // at the outer level of a compressed circuit: edit the inflated payload
+                if let Ok(payload) = miniz_oxide::inflate::decompress_to_vec_with_limit(&b, 1 << 22) {
+                    let m = apply_edits(255, payload, std::slice::from_ref(e));
+                    b = miniz_oxide::deflate::compress_to_vec(&m, 6);
+                }
+            }
+            Edit::MsgInt { which, val, lengths } => {
+                let toks: Vec<_> = msgpack_int_tokens(&b).into_iter().filter(|t| t.2 == *lengths).collect();
+                if !toks.is_empty() {
+                    // the first few tokens are the top-level counts: favour them
+                    let k = if *which % 3 == 0 { (*which as usize / 3) % toks.len().min(6) } else { *which as usize % toks.len() };
+                    let (s0, e0, is_len, cur) = toks[k];
+                    let nv = msg_value(cur, *val);
+                    let enc = if is_len { msgpack_array_len(nv) } else { msgpack_uint(nv) };
+                    b.splice(s0..e0, enc);
+                }
+            }
             Edit::Inner(inner) => {
                 if target == T_COMPRESSED {
                     if let Ok(payload) = miniz_oxide::inflate::decompress_to_vec_with_limit(&b, 1 << 22) {
@@ -458,6 +480,138 @@ pub fn apply_edits(target: u8, mut b: Vec<u8>, edits: &[Edit]) -> Vec<u8> {
         }
     }
     b
+}
+
+/// (start, end, is_length, value) of every integer and array-length token of
+/// a MessagePack stream (tolerant linear walk; stops at the first byte it
+/// cannot interpret)
+pub fn msgpack_int_tokens(b: &[u8]) -> Vec<(usize, usize, bool, u64)> {
+    let mut out = Vec::new();
+    let mut i = 0usize;
+    let rd = |b: &[u8], at: usize, n: usize| -> Option<u64> {
+        let s = b.get(at..at.checked_add(n)?)?;
+        let mut v = 0u64;
+        for x in s {
+            v = (v << 8) | *x as u64;
+        }
+        Some(v)
+    };
+    while i < b.len() {
+        let t = b[i];
+        let (len, skip): (usize, usize) = match t {
+            0x00..=0x7f => {
+                out.push((i, i + 1, false, t as u64));
+                (1, 0)
+            }
+            0x90..=0x9f => {
+                out.push((i, i + 1, true, (t & 0x0f) as u64));
+                (1, 0)
+            }
+            0x80..=0x8f => (1, 0),
+            0xa0..=0xbf => (1, (t & 0x1f) as usize),
+            0xc0 | 0xc2 | 0xc3 => (1, 0),
+            0xc4 | 0xd9 => match rd(b, i + 1, 1) {
+                Some(n) => (2, n as usize),
+                None => break,
+            },
+            0xc5 | 0xda => match rd(b, i + 1, 2) {
+                Some(n) => (3, n as usize),
+                None => break,
+            },
+            0xc6 | 0xdb => match rd(b, i + 1, 4) {
+                Some(n) => (5, n as usize),
+                None => break,
+            },
+            0xca => (5, 0),
+            0xcb => (9, 0),
+            0xcc | 0xcd | 0xce | 0xcf => {
+                let n = 1usize << (t - 0xcc);
+                match rd(b, i + 1, n) {
+                    Some(v) => out.push((i, i + 1 + n, false, v)),
+                    None => break,
+                }
+                (1 + n, 0)
+            }
+            0xd0 | 0xd1 | 0xd2 | 0xd3 => (1 + (1usize << (t - 0xd0)), 0),
+            0xdc => {
+                match rd(b, i + 1, 2) {
+                    Some(v) => out.push((i, i + 3, true, v)),
+                    None => break,
+                }
+                (3, 0)
+            }
+            0xdd => {
+                match rd(b, i + 1, 4) {
+                    Some(v) => out.push((i, i + 5, true, v)),
+                    None => break,
+                }
+                (5, 0)
+            }
+            0xde => (3, 0),
+            0xdf => (5, 0),
+            0xe0..=0xff => (1, 0),
+            _ => break,
+        };
+        i = match i.checked_add(len).and_then(|x| x.checked_add(skip)) {
+            Some(x) => x,
+            None => break,
+        };
+    }
+    out
+}
+
+fn msgpack_uint(v: u64) -> Vec<u8> {
+    if v < 128 {
+        vec![v as u8]
+    } else if v < (1 << 8) {
+        vec![0xcc, v as u8]
+    } else if v < (1 << 16) {
+        let mut o = vec![0xcd];
+        o.extend_from_slice(&(v as u16).to_be_bytes());
+        o
+    } else if v < (1 << 32) {
+        let mut o = vec![0xce];
+        o.extend_from_slice(&(v as u32).to_be_bytes());
+        o
+    } else {
+        let mut o = vec![0xcf];
+        o.extend_from_slice(&v.to_be_bytes());
+        o
+    }
+}
+
+fn msgpack_array_len(v: u64) -> Vec<u8> {
+    if v < 16 {
+        vec![0x90 | v as u8]
+    } else if v < (1 << 16) {
+        let mut o = vec![0xdc];
+        o.extend_from_slice(&(v as u16).to_be_bytes());
+        o
+    } else {
+        let mut o = vec![0xdd];
+        o.extend_from_slice(&(v.min(u32::MAX as u64) as u32).to_be_bytes());
+        o
+    }
+}
+
+/// replacement values for a declared count / index: small, off by one, and
+/// large ones that stay clear of the 2^31..2^58 band (an allocation of that
+/// many entries aborts the process instead of failing a check)
+fn msg_value(cur: u64, val: u8) -> u64 {
+    match val % 12 {
+        0 => 0,
+        1 => 1,
+        2 => cur.wrapping_add(1),
+        3 => cur.wrapping_sub(1),
+        4 => cur.wrapping_mul(2),
+        5 => 1 << 16,
+        6 => 1 << 20,
+        7 => 1 << 24,
+        8 => 1 << 27,
+        9 => 1 << 61,
+        10 => (1 << 62) + 12345,
+        _ => u64::MAX >> 1,
+    }
 }
 
 pub fn base_bytes(target: u8, base: u8) -> Vec<u8> {
@@ -493,7 +647,8 @@ pub fn script_from_bytes(data: &[u8]) -> Script {
     let count = 1 + next(1) as usize % 4;
     let mut edits = Vec::new();
     let one = |next: &mut dyn FnMut(usize) -> u64| -> Edit {
-        match next(1) % 9 {
+        match next(1) % 10 {
+            9 => Edit::MsgInt { which: next(2) as u16, val: next(1) as u8, lengths: next(1) % 4 == 0 },
             8 => {
                 if next(1) % 2 == 0 {
                     Edit::G2 { slot: next(2) as u16, kind: next(1) as u8 }
